@@ -452,6 +452,14 @@ def r15_8(ctx):
     histories = {"g+ g- h+ g+": [("s", G), ("u", G), ("s", H), ("s", G)],
                  "g+ h+ g- h- h+ g+": [("s", G), ("s", H), ("u", G), ("u", H), ("s", H), ("s", G)],
                  "g+ g- g+ h+ h- h+": [("s", G), ("u", G), ("s", G), ("s", H), ("u", H), ("s", H)]}
+    if ctx.run.tier == "thorough":
+        # every sequence of up to five operations over two groups (all table writes accepted)
+        import itertools
+
+        alphabet = [("s", G), ("u", G), ("s", H), ("u", H)]
+        for n_ in range(1, 6):
+            for combo in itertools.product(range(4), repeat=n_):
+                histories["all:" + "".join("gGhH"[c] for c in combo)] = [alphabet[c] for c in combo]
     for hname, ops in histories.items():
         world = {}
 
@@ -488,4 +496,4 @@ def r15_8(ctx):
         for p in pxh._run(hentry):
             ctx.paths += 1
             bad = "; ".join(world.get("final", [])[:2]) if p.terminal == "return" else f"raises {p.value!r}"
-            ctx.require(not bad, f"history:{hname}", f"history {hname}: {bad}", func=sub_f, trace=p.trace(40))
+            ctx.require(not bad, f"history:{'exhaustive' if hname.startswith('all:') else hname}", f"history {hname}: {bad}", func=sub_f, trace=p.trace(40))
